@@ -17,6 +17,7 @@
 -/
 import Cog.Sem.GoBuilder
 import Cog.Sem.Converter
+import Cog.Sem.PyBuilder
 import Cog.Builder.Vir
 import Cog.Drv.SchemaStore
 import Cog.Drv.ValidateDrv
@@ -203,6 +204,94 @@ def goconvertLine (rest : String) : IO String := do
             | .unsup w => return "unsup " ++ w
             | .fuel => return "fuel"
           | .err => return "decerr"
+          | .unsup w => return "unsup " ++ w
+          | .fuel => return "fuel"
+  | _ => return "bad-request"
+
+
+/-! ### pybuild -/
+
+initialize pyBuilderStore : IO.Ref (Std.HashMap String PB.Ctx) ← IO.mkRef {}
+
+/-- the value of a generated Python class read back from its `to_json` document: instances of
+    struct objects become `PyVal.obj` (attribute list from the IR), the rest is `json.loads` -/
+partial def pyTyped (ss : Schemas) (t : Ty) (j : Json) : PyVal :=
+  match t, j with
+  | _, .null => .none
+  | .ref p n _, .obj members =>
+    match Schemas.locateObject ss p n with
+    | some { ty := .struct fields _ _ _, .. } =>
+      .obj (fields.map fun f => (f.name, f.required, pyTyped ss f.ty ((Json.lookup f.name members).getD .null)))
+    | some { ty := .map _ v _, .. } => .dict (members.map fun kv => (kv.1, pyTyped ss v kv.2))
+    | some { ty := .ref p' n' m, .. } => pyTyped ss (.ref p' n' m) j
+    | _ => PyVal.ofJson j
+  | .ref p n _, .arr xs =>
+    match Schemas.locateObject ss p n with
+    | some { ty := .array e _, .. } => .list (xs.map (pyTyped ss e))
+    | _ => PyVal.ofJson j
+  | .array e _, .arr xs => .list (xs.map (pyTyped ss e))
+  | .map _ v _, .obj members => .dict (members.map fun kv => (kv.1, pyTyped ss v kv.2))
+  | _, _ => PyVal.ofJson j
+
+def pyDefaultsIn (ss : Schemas) : Sexp → Option (List ((String × String) × PyVal))
+  | .list (.atom "defaults" :: xs) => some <| xs.filterMap fun (x : Sexp) => match x with
+    | .list [.str p, .str n, j] => (Json.ofSexp j).map fun j' => ((p, n), pyTyped ss (.ref p n {}) j')
+    | _ => none
+  | _ => none
+
+partial def pyArgIn : Sexp → Option PB.Arg
+  | .list [.atom "j", j] => (Json.ofSexp j).map .json
+  | .list [.atom "fail", _] => some .fail
+  | .list (.atom "l" :: xs) => (xs.mapM pyArgIn).map .list
+  | .list (.atom "d" :: kvs) => (kvs.mapM fun (x : Sexp) => match x with
+      | .list [.str k, a] => (pyArgIn a).map fun a' => (k, a')
+      | _ => none).map .dict
+  | .list (.atom "b" :: .str name :: .list (.atom "ctor" :: cas) :: calls) => do
+    let cas' ← cas.mapM pyArgIn
+    let calls' ← calls.mapM fun (x : Sexp) => match x with
+      | .list (.atom "call" :: .str o :: as) => (as.mapM pyArgIn).map fun as' => PB.Call.mk o as'
+      | _ => none
+    some (.builder name cas' calls')
+  | _ => none
+
+def pyBuildIn : Sexp → Option (List PB.Arg × List PB.Call)
+  | .list (.atom "build" :: .list (.atom "ctor" :: cas) :: calls) => do
+    let cas' ← cas.mapM pyArgIn
+    let calls' ← calls.mapM fun (x : Sexp) => match x with
+      | .list (.atom "call" :: .str o :: as) => (as.mapM pyArgIn).map fun as' => PB.Call.mk o as'
+      | _ => none
+    some (cas', calls')
+  | _ => none
+
+/-- `pybuild def <schemas-id> <builders-id> <builders-vir> <defaults>` /
+    `pybuild <schemas-id> <builders-id> <pkg> <builder> <calls>` → `ok <json>` | `raise <class>` | unsup … -/
+def pybuildLine (rest : String) : IO String := do
+  match rest.splitOn " " with
+  | "def" :: sid :: bid :: more =>
+    match ← getSchemas sid with
+    | none => return "unknown-schemas"
+    | some ss =>
+      match Sexp.parseMany (" ".intercalate more) with
+      | some [b, d] =>
+        match Builder.Vir.buildersIn b, pyDefaultsIn ss d with
+        | some bs, some ds =>
+          pyBuilderStore.modify (·.insert bid { ss := ss, bs := bs, dflt := ds })
+          return "ok"
+        | _, _ => return "bad-vir"
+      | _ => return "bad-sexp"
+  | _sid :: bid :: _pkg :: bname :: more =>
+    match (← pyBuilderStore.get).get? bid with
+    | none => return "unknown-builders"
+    | some c =>
+      match (Sexp.parse (" ".intercalate more)).bind pyBuildIn with
+      | none => return "bad-calls"
+      | some (ctor, calls) =>
+        match PB.findBuilder c.bs bname with
+        | none => return "unknown-builder"
+        | some b =>
+          match PB.runBuilder 8 c b ctor calls with
+          | .ok st => return "ok " ++ (pyToJson (PB.build st)).render
+          | .raise e => return "raise " ++ e
           | .unsup w => return "unsup " ++ w
           | .fuel => return "fuel"
   | _ => return "bad-request"
